@@ -5,7 +5,7 @@ from __future__ import annotations
 import json
 import random
 
-from vf import noise_h, simloop, tracecheck
+from vf import watchdog, noise_h, simloop, tracecheck
 from vf.tlc import parse_tagged
 
 
@@ -73,6 +73,15 @@ def random_dev(rng: random.Random, nf: int) -> dict:
         choices += [("datakey", range(3, nf + 1))]
     k, r = rng.choice(choices)
     return {"k": k, "i": rng.choice(list(r))}
+
+
+def simloop_reset():
+    """After an interrupted case: make sure no half-installed loop is left behind."""
+    import asyncio
+    from asyncio import events
+
+    events._set_running_loop(None)
+    asyncio.set_event_loop(None)
 
 
 def record_trace(rng: random.Random, deviate: bool, big: bool, with_writes: bool):
@@ -165,7 +174,12 @@ def run_noise(ctx, want: str):
     if len(sel) < 500:
         raise RuntimeError(f"edge cover too small for {want}: {len(sel)}")
     for key, nm, dev, hist in sel:
-        mm = noise_h.replay_behaviour(rng, nm, dev, frames_cache[key], hist)
+        try:
+            with watchdog.limit(10, "replay"):
+                mm = noise_h.replay_behaviour(rng, nm, dev, frames_cache[key], hist)
+        except watchdog.Hang:
+            ctx.violation(f"NoiseHelper/hang/{dev['k']}", {"kind": "edge", "nm": nm, "dev": dev, "frames": frames_cache[key], "hist": hist, "mismatch": "the helper did not return (10 s)"})
+            continue
         ctx.replayed += 1
         ctx.case(("edge", key, tuple((h[0], h[1]) for h in hist)))
         if mm is not None:
@@ -176,7 +190,14 @@ def run_noise(ctx, want: str):
     ctx.sample({"replayed_behaviour": {"nm": sel[0][1], "dev": sel[len(sel) // 2][2], "hist": sel[len(sel) // 2][3]}})
     # 3. recorded traces far beyond the bounds
     ntr = 300 if ctx.quick else 5000
-    traces = [record_trace(rng, want == "deviation", big=(i % 3 == 0), with_writes=(want == "honest")) for i in range(ntr)]
+    traces = []
+    for i in range(ntr):
+        try:
+            with watchdog.limit(20, "record"):
+                traces.append(record_trace(rng, want == "deviation", big=(i % 3 == 0), with_writes=(want == "honest")))
+        except watchdog.Hang:
+            ctx.violation("TraceNoise/hang", {"kind": "hang", "trace_index": i, "what": "the helper did not return while the session was recorded (20 s)"})
+            simloop_reset()
     for i, t in enumerate(traces):
         ctx.case(("trace", i, len(t["frames"]), len(t["events"])))
     rej = tracecheck.validate(ctx, "TraceNoise", traces, batch=1000)
